@@ -1,6 +1,7 @@
 // Demonstrations of the known findings against the real code (run from a scratch worktree:
 //   cp /verif/findings/kf_demo.rs <worktree>/miniz_oxide/tests/ && cargo test -p miniz_oxide --test kf_demo --offline -- --nocapture)
-// Each test PASSES when the defect is present (it asserts the defective behaviour), and documents the failing input.
+// kf1_* and kf2_* assert the CORRECT behaviour: they FAIL on the tree before the `fix:` commits (a62f587) and pass after them.
+// kf5_* documents an open finding: it passes while the defect is present.
 use miniz_oxide::deflate::core::{compress, CompressionStrategy, CompressorOxide, TDEFLFlush, TDEFLStatus};
 use miniz_oxide::inflate::core::{decompress, inflate_flags, DecompressorOxide};
 use miniz_oxide::inflate::stream::{inflate, InflateState, MinReset, ZeroReset};
@@ -55,8 +56,7 @@ fn kf1_rle_routed_to_fast_path_emits_long_distances() {
     assert_eq!(declared, 512, "header declares a 512 byte window");
     // the full 32 KiB window decodes it, the declared window does not: the stream contains distance 3000 > 512
     assert_eq!(miniz_oxide::inflate::decompress_to_vec_zlib(&z).unwrap(), data);
-    assert!(z.len() < data.len() / 2, "repeats at distance 3000 were exploited: {} bytes", z.len());
-    assert_ne!(decode_with_ring(&z, declared).ok(), Some(data.clone()), "decodes with the declared window: defect absent");
+    assert_eq!(decode_with_ring(&z, declared).ok(), Some(data.clone()), "stream must decode with the declared 512-byte window");
 }
 
 /// KF-2: window_bits 12..=14 cap the level to 1 but distances up to 32 KiB are emitted; header declares 4..16 KiB.
@@ -72,8 +72,7 @@ fn kf2_window_bits_12_to_14_exceed_declared_window() {
         let declared = 1usize << ((z[0] >> 4) + 8);
         assert_eq!(declared, 1usize << wb);
         assert_eq!(miniz_oxide::inflate::decompress_to_vec_zlib(&z).unwrap(), data);
-        assert!(z.len() < data.len() * 3 / 4, "distance-20000 repeats exploited with window_bits {}", wb);
-        assert_ne!(decode_with_ring(&z, declared).ok(), Some(data.clone()), "window_bits {}: defect absent", wb);
+        assert_eq!(decode_with_ring(&z, declared).ok(), Some(data.clone()), "window_bits {}: must decode with the declared window", wb);
     }
 }
 
